@@ -23,6 +23,14 @@ theorem single_writer :
     required argparse option without a default and nothing else assigns the parsed arguments. -/
 theorem output_named_by_user : outputNamedByUser Extracted.effects.cliArgs = true := by decide
 
+/-- **only_program_is_the_decrypter**: the library ships exactly one program — the single module under
+    `dissect/hypervisor/tools` with a `main` (there is no `__main__.py`) and the single console script of pyproject.toml are the
+    envelope decrypter, whose writes `single_writer` / `output_named_by_user` confine to `--output`. Together with
+    `all_sites_readonly` (which also rejects borrowed code: `__code__`, `types.FunctionType`, `exec`, `runpy` …) no other entry
+    point exists through which the package could produce output. -/
+theorem only_program_is_the_decrypter :
+    onlyDecrypter Extracted.effects.tools Extracted.effects.scripts = true := by decide
+
 theorem readonly_step (fs : FS) (op : Op) (h : op.readOnly = true) : fsStep fs op = fs := by
   cases op <;> first | rfl | (simp [Op.readOnly] at h)
 
